@@ -327,7 +327,9 @@ func (k *Keyed[K, V]) resetRoutineLocked(key K, conds ...func(K, V) bool) (exist
 	k.routines[key] = v
 	if k.ctx != nil {
 		v.start(k.ctx, prevExitedCh, false)
-	} else {
+	}
+	if v.exitedCh == nil {
+		// not started (no context or no routine):
 		// the next start must still wait for the previous routine to exit
 		v.exitedCh = prevExitedCh
 	}
